@@ -60,13 +60,11 @@ EXHAUSTIVE_NOTE = (
     " year types, all 7 mode spellings, constructor + text notations) is "
     "enumerated completely in both tiers; the fuzz sub-domain is sampled")
 
-YEAR_TYPES = {
-    "gregorian": [0, -1, -4, 1, 4, 1900, 2000, 2003, 2004, 2015, 2020, 2021,
-                  2100, 9999, 10000, -400, -10000],
-    "360day": [0, -1, 1, 1999, 2000, 2001, 2002, 2003, 2004, 9999, 10000],
-    "365day": [0, -1, 1, 1999, 2000, 2004, 2005, 2006, 9999, 10000],
-    "366day": [0, -1, 1, 1999, 2000, 2003, 2004, 2005, 9999, 10000],
-}
+_YEARS = [0, -1, -4, 1, 4, 1900, 1999, 2000, 2001, 2002, 2003, 2004, 2005, 2006,
+          2015, 2020, 2021, 2100, 9999, 10000, -400, -10000]
+# every year type of every mode (leap/common x 51/52/53 weeks, year 0,
+# negative, > 9999); the same years under every mode on purpose
+YEAR_TYPES = {m: _YEARS for m in ("gregorian", "360day", "365day", "366day")}
 EDGE = (-1, 0, 1, 59, 60, 61)
 
 
@@ -98,14 +96,25 @@ def _judge(what, valid, res, classes_key):
     return None
 
 
+_BOX_PARSER = []
+
+
+def long_lived_parser():
+    """One TimePointParser for all the boxes of a shard (as an application
+    would hold it): it survives the mode switches between box jobs."""
+    if not _BOX_PARSER:
+        from metomi.isodatetime import parsers
+        _BOX_PARSER.append(parsers.TimePointParser(
+            num_expanded_year_digits=2, assumed_time_zone=(0, 0)))
+    return _BOX_PARSER[0]
+
+
 def box_year(mode, y):
     """Enumerate the date boxes for one (mode, year). Yields (key, fail)."""
     D = M.lib()
     cm = R.canon(mode)
     xd = 0 if 0 <= y <= 9999 else 2
-    from metomi.isodatetime import parsers
-    P = parsers.TimePointParser(num_expanded_year_digits=2,
-                                assumed_time_zone=(0, 0))
+    P = long_lived_parser()
     ml = R.mlens(cm, y)
     near_m = lambda v, top: v in (0, 1, top, top + 1)   # noqa: E731
 
@@ -600,16 +609,28 @@ def st_fuzz(draw):
             "text": text}
 
 
+MODE_ORDER = ["360day", "366day", "360_day", "366_day", "gregorian", "365day",
+              "365_day"]        # most permissive month tables first
+
+
 def box_jobs():
+    """[(group, job)]: jobs of one group run in one shard, in this order, so
+    that the same year (the same texts) is visited under every mode by the
+    same long-lived parser."""
     jobs = []
-    for mode in R.MODE_SPELLINGS:
-        for y in YEAR_TYPES[R.canon(mode)]:
-            jobs.append({"kind": "box", "mode": mode, "what": "year", "year": y})
-        jobs.append({"kind": "box", "mode": mode, "what": "time"})
-        jobs.append({"kind": "box", "mode": mode, "what": "truncated"})
+    years = sorted({y for ys in YEAR_TYPES.values() for y in ys})
+    for g, y in enumerate(years):
+        for mode in MODE_ORDER:
+            if y in YEAR_TYPES[R.canon(mode)]:
+                jobs.append((g, {"kind": "box", "mode": mode, "what": "year",
+                                 "year": y}))
+    g = len(years)
+    for mode in MODE_ORDER:
+        jobs.append((g, {"kind": "box", "mode": mode, "what": "time"}))
+        jobs.append((g + 1, {"kind": "box", "mode": mode, "what": "truncated"}))
     for part in range(8):
-        jobs.append({"kind": "box", "mode": "gregorian", "what": "zone",
-                     "part": part, "nparts": 8})
+        jobs.append((g + 2 + part, {"kind": "box", "mode": "gregorian",
+                                    "what": "zone", "part": part, "nparts": 8}))
     return jobs
 
 
@@ -676,8 +697,8 @@ def run_shard(ctx):
         run_atheris(ctx, 6000, True, 0)
     if ctx.tier == "thorough" and ctx.index >= ctx.nshards - 4:
         run_atheris(ctx, 400000, ctx.index % 2 == 0, ctx.index)
-    for i, case in enumerate(box_jobs()):
-        if i % ctx.nshards != ctx.index:
+    for g, case in box_jobs():
+        if g % ctx.nshards != ctx.index:
             continue
         out = ctx.observe(case, check_case)
         if out.fail:
